@@ -64,7 +64,9 @@ where
     }
 
     pub(crate) fn take_bytes(self, limit: usize) -> Result<Vec<u8>> {
-        let mut output = Vec::with_capacity(limit);
+        // Do not reserve `limit` up front: it is a size declared in the file and
+        // may be far larger than the data that is actually present.
+        let mut output = Vec::new();
         self.input.take(limit as u64).read_to_end(&mut output)?;
         if output.len() != limit {
             Err(AsepriteParseError::InvalidInput(format!(
@@ -79,7 +81,9 @@ where
 
     pub(crate) fn unzip(self, expected_output_size: usize) -> Result<Vec<u8>> {
         let mut decoder = ZlibDecoder::new(self.input);
-        let mut buffer = Vec::with_capacity(expected_output_size);
+        // Do not reserve `expected_output_size` up front: it is a size declared
+        // in the file and may be far larger than what the stream inflates to.
+        let mut buffer = Vec::new();
         decoder.read_to_end(&mut buffer)?;
         if buffer.len() != expected_output_size {
             return Err(AsepriteParseError::InvalidInput(format!(
